@@ -30,6 +30,10 @@ type PackageInfo struct {
 	Versions Versions `yaml:"versions,omitempty"`
 	Imports  Imports  `yaml:"imports,omitempty"`
 
+	// The number of imports in the longest import chain below this package.
+	// Set once the package's imports have been collected.
+	importHeight int
+
 	Json   *JsonCodegenOptions   `yaml:"json,omitempty"`
 	Cpp    *CppCodegenOptions    `yaml:"cpp,omitempty"`
 	Python *PythonCodegenOptions `yaml:"python,omitempty"`
@@ -341,6 +345,12 @@ func collectPackages(parentDir string, alreadyCollected map[string]*PackageInfo,
 		if collected.FilePath != parentInfo.FilePath {
 			return collected, validation.NewValidationError(fmt.Errorf("namespace '%s' conflicts with '%s'", parentInfo.Namespace, collected.FilePath), parentInfo.FilePath)
 		} else {
+			// The package was first reached through another (possibly shorter) chain.
+			// Apply the depth limit to this chain as well so that the outcome does
+			// not depend on the order in which imports are listed.
+			if depthRemaining-collected.importHeight <= 0 {
+				return collected, validation.NewValidationError(errors.New("reached maximum number of recursive imports"), parentInfo.FilePath)
+			}
 			return collected, nil
 		}
 	}
@@ -371,6 +381,9 @@ func collectPackages(parentDir string, alreadyCollected map[string]*PackageInfo,
 
 		// Build the Import tree
 		parentInfo.Imports[i].Package = childInfo
+		if childInfo.importHeight+1 > parentInfo.importHeight {
+			parentInfo.importHeight = childInfo.importHeight + 1
+		}
 	}
 
 	return parentInfo, nil
